@@ -165,7 +165,6 @@ func (n *Nodis) HMSet(key string, fields map[string][]byte) int64 {
 	var v int64
 	_ = n.exec(func(tx *Tx) error {
 		meta := tx.writeKey(key, n.newHash)
-		var v int64 = 0
 		for field, value := range fields {
 			v += meta.value.(*hash.HashMap).HSet(field, value)
 		}
